@@ -401,6 +401,25 @@ def always_exits(stmts: Sequence[ast.stmt]) -> bool:
         return bool(last.orelse) and always_exits(last.body) and always_exits(last.orelse)
     if isinstance(last, (ast.With, ast.AsyncWith)):
         return always_exits(last.body)
+    if isinstance(last, ast.While) and isinstance(last.test, ast.Constant) and last.test.value is True:
+        # `while True:` is left only through break (or return / raise, which do not fall through)
+        def _breaks(block: Sequence[ast.stmt]) -> bool:
+            for st in block:
+                if isinstance(st, ast.Break):
+                    return True
+                if isinstance(st, (ast.For, ast.While, ast.AsyncFor)):
+                    if _breaks(st.orelse):
+                        return True
+                    continue
+                for fld in ("body", "orelse", "finalbody"):
+                    if _breaks(getattr(st, fld, []) or []):
+                        return True
+                for h in getattr(st, "handlers", []) or []:
+                    if _breaks(h.body):
+                        return True
+            return False
+
+        return not _breaks(last.body)
     if isinstance(last, ast.Try):
         if last.finalbody and always_exits(last.finalbody):
             return True
